@@ -1,4 +1,4 @@
-CONSTANTS Handles = {0, 1}  Ids = {1, 2}  MaxOps = 5  MaxKeys = 4  Starts = {"plain", "both_in_txn"}
+CONSTANTS Handles = {0, 1}  Ids = {1, 2}  MaxOps = 5  MaxKeys = 4  Starts = {"plain", "both_in_txn"}  Kinds = {"insert", "update", "delete", "read", "drop"}
 SPECIFICATION Spec
 VIEW view
 INVARIANT SequentialWhenAutocommit SerialWhenAlone OwnWritesVisible RefNoDirtyRead RefNoLostUpdate
